@@ -180,6 +180,9 @@ def r81(ctx):
                 any_false |= fv.result_edges(bi, c, "ok")
         if nm.endswith("is_tx_non_malleable"):
             nm_true |= fv.result_edges(bi, c, "ok")
+        # the same test written in place: `segwit_flags.iter().all(|sf| *sf)` is true
+        if (nm.endswith("Iterator>::all") or nm.endswith("::all")) and "segwit_flags" in render(nv.expr(c.args[0])):
+            nm_true |= fv.result_edges(bi, c, "ok")
     ok = bool(any_false) and bool(nm_true) and all(fv.must_pass(sb, any_false | nm_true) for sb, _ in succ)
     ctx.ob("R8.1", ok, f"{b.name}/non-malleable", "a funding transaction with a non-segwit input can pass when it funds a channel",
            where=f"{b.file}:{b.line}", sample="Ok dominated by (no channel funded) or is_tx_non_malleable")
